@@ -32,6 +32,8 @@ def run(ctx):
     R.rule_R2(ctx, funcs)
     R.rule_R3(ctx, typer)
     R.rule_R4(ctx, typer, funcs)
+    R.rule_R6_string_compare(ctx, typer, funcs)
+    ctx.floor("R6", 2)
     ctx.floor("R1", 3)
     ctx.floor("R2", 5)
     ctx.floor("R3", 6)
